@@ -4,9 +4,12 @@ import (
 	"encoding/json"
 	"fmt"
 	"os"
+	"regexp"
 
+	"strings"
 	"verif/harness/fake"
 	"verif/harness/gen"
+	"verif/harness/hx"
 )
 
 func init() { drivers["explore"] = driveExplore }
@@ -55,6 +58,56 @@ func driveExplore(seed int64, tier, out, replay string) {
 				}
 			}
 			fmt.Printf("[%d] %s\n    verdict: %s\n    subreq: %s\n    resp: %s\n", i, op.Query, shortStr(what, 300), shortStr(sub, 200), shortStr(fmt.Sprint(resp), 200))
+		}
+	}
+}
+
+var digitsRe = regexp.MustCompile(`[0-9]+`)
+
+func init() { drivers["explorewild"] = driveExploreWild }
+
+// explorewild: wild operations on interface worlds through the end-to-end comparison; prints the failing ones grouped
+// by the kind of failure (a triage aid, not a check).
+func driveExploreWild(seed int64, tier, out, replay string) {
+	rng := hx.NewRand(seed)
+	groups := map[string][]string{}
+	n := 0
+	for wi := 0; wi < 30; wi++ {
+		wopt := gen.DefaultWorldOptions()
+		wopt.Interfaces = true
+		ws := rng.Int63()
+		r, err := NewRig(gen.NewWorld(hx.NewRand(ws), wopt), RigConfig{})
+		if err != nil {
+			continue
+		}
+		for j := 0; j < 40; j++ {
+			oo := opOptionsFor("inD01", r.World)
+			oo.Wild = true
+			oo.Directives, oo.NamedFrags = false, false
+			op := gen.Operation(hx.NewRand(rng.Int63()), r.Merged, oo)
+			what, _ := compareFed(r, op)
+			if what == "" || strings.HasPrefix(what, "skip:") {
+				continue
+			}
+			n++
+			key := what
+			if i := strings.Index(key, "message\":"); i >= 0 {
+				key = key[i:]
+			}
+			key = digitsRe.ReplaceAllString(key, "#")
+			if len(key) > 90 {
+				key = key[:90]
+			}
+			groups[key] = append(groups[key], fmt.Sprintf("world=%d %s\n      %s", ws, op.Query, shortStr(what, 260)))
+		}
+	}
+	fmt.Println("failing:", n)
+	for k, v := range groups {
+		fmt.Printf("== %s (%d)\n", k, len(v))
+		for i, x := range v {
+			if i < 3 {
+				fmt.Println("   ", x)
+			}
 		}
 	}
 }
